@@ -36,7 +36,7 @@ Proof. unfold tmp_ty. intros s. destruct (is_arith o); discriminate. Qed.
 Lemma ty_expr_adds_locals e : forall g t g', ty_expr g e = Some (t, g') ->
   forall y t1 k1, tget g y = None -> tget g' y = Some (t1, k1) -> k1 = KLocal.
 Proof.
-  induction e as [p|c| |x o c v Co IHc IHv|x v Pl IHv|o l r0 G IHl IHr] using expr_shape_ind; intros g t g' Ht y t1 k1 Hn Hs.
+  induction e as [p|c| |x o c v Co IHc IHv|x v Pl IHv|u1 u2 v IHt IHv|o l r0 G IHl IHr] using expr_shape_ind; intros g t g' Ht y t1 k1 Hn Hs.
   - destruct p as [b|x|n]; cbn in Ht.
     + inversion Ht; subst; congruence.
     + destruct (tget g x) as [[? ?]|]; inversion Ht; subst; congruence.
@@ -51,11 +51,29 @@ Proof.
   - apply ty_bind_inv in Ht; auto. destruct Ht as (g1 & H1 & [[-> _]|[-> Hn1]]).
     + eapply IHv; eauto.
     + cbn [tget] in Hs. destruct (name_eqb x y) eqn:E; [inversion Hs; reflexivity|]. eapply IHv; eauto.
+  - apply ty_nest_inv in Ht. destruct Ht as (_ & g1 & H1 & H2).
+    destruct (tget g1 y) as [[t2 k2]|] eqn:E1.
+    + assert (k2 = KLocal) by (eapply IHt; eauto). subst.
+      rewrite (ty_expr_mono _ _ _ _ H2 y) in Hs by congruence. congruence.
+    + eapply IHv; eauto.
   - apply ty_op_inv in Ht; auto. destruct Ht as (_ & tl & g1 & tr & H1 & H2).
     destruct (tget g1 y) as [[t2 k2]|] eqn:E1.
     + assert (k2 = KLocal) by (eapply IHl; eauto). subst.
       rewrite (ty_expr_mono _ _ _ _ H2 y) in Hs by congruence. congruence.
     + eapply IHr; eauto.
+Qed.
+
+(* a typed bind expression has a target variable, and that is where its value is read from *)
+Lemma typed_bind_target e : forall g t g', ty_expr g e = Some (t, g') ->
+  forall a b, e = Sexp OBind a b -> exists x, bind_target e = Some x /\ direct_var e = Some x.
+Proof.
+  induction e as [p|c| |x o c v Co IHc IHv|x v Pl IHv|u1 u2 v IHt IHv|o l r0 G IHl IHr] using expr_shape_ind;
+    intros g t g' Ht a b He; try discriminate He.
+  - exists x. split; reflexivity.
+  - exists x. split; reflexivity.
+  - apply ty_nest_inv in Ht. destruct Ht as (_ & g1 & H1 & _).
+    destruct (IHt _ _ _ H1 _ _ eq_refl) as (x & Hb & Hd). exists x. split; [exact Hb|exact Hd].
+  - apply ty_op_inv in Ht; auto. destruct Ht as (Vo & _). inversion He; subst o. discriminate Vo.
 Qed.
 
 (* the target of a conditional or ewma is a variable that was declared before the expression *)
@@ -92,7 +110,7 @@ Theorem typing_link e : forall g t g' sc is r sc',
   link g' (sc_named sc') /\ tname_ok (sc_named sc') /\ not_tname (reg_type r) /\
   typed_mono (sc_named sc) (sc_named sc').
 Proof.
-  induction e as [p|c| |x o c v Co IHc IHv|x v Pl IHv|o l r0 G IHl IHr] using expr_shape_ind;
+  induction e as [p|c| |x o c v Co IHc IHv|x v Pl IHv|u1 u2 v IHt IHv|o l r0 G IHl IHr] using expr_shape_ind;
     intros g t g' sc is r sc' Ht Hc L T.
   - destruct p as [b|x|n].
     + cbn in Ht, Hc. inversion Ht; inversion Hc; subst. repeat split; auto using typed_mono_refl. intros s; discriminate.
@@ -156,6 +174,14 @@ Proof.
       intros y tk Hy. destruct Hg' as [[-> _]|[-> _]]; [eauto|].
       cbn [tget] in Hy. destruct (name_eqb x y) eqn:E; [|eauto].
       apply name_eqb_eq in E. subst y. eauto.
+  - (* a bind whose target is itself a bind *)
+    apply ty_nest_inv in Ht. destruct Ht as (_ & g1 & H1 & H2).
+    apply compile_sexp_inv in Hc. destruct Hc as (is1 & lft & sc1 & is2 & rgt & sc2 & C1 & C2 & C3).
+    destruct (IHt _ _ _ _ _ _ _ H1 C1 L T) as (L1 & T1 & Tl & M1).
+    destruct (IHv _ _ _ _ _ _ _ H2 C2 L1 T1) as (L2 & T2 & _ & M2).
+    apply lower_tail_bind in C3. destruct C3 as (lft' & [(s & Hs & _)|(_ & -> & ->)] & -> & _).
+    + exfalso. exact (Tl s Hs).
+    + repeat split; eauto using typed_mono_trans.
   - (* operators *)
     apply ty_op_inv in Ht; auto. destruct Ht as (Vo & tl & g1 & tr & H1 & H2).
     apply compile_sexp_inv in Hc. destruct Hc as (is1 & lft & sc1 & is2 & rgt & sc2 & C1 & C2 & C3).
@@ -272,7 +298,7 @@ Section Sim.
   (* where the value of a sub-expression lives *)
   Definition res_ok (sc sc' : scope) (e : expr) (r : reg) : Prop :=
     match slot r with
-    | Some (FTmp, j) => sc_ntmp sc <= j < sc_ntmp sc'
+    | Some (FTmp, j) => sc_ntmp sc <= j < sc_ntmp sc' /\ bind_target e = None
     | Some _ => exists x r', direct_var e = Some x /\ sc_get scf x = Some r' /\ dreg_of r' = dreg_of r
     | None => match r with RNone => False | _ => True end
     end.
@@ -291,7 +317,7 @@ Section Sim.
         assert (Hvc : var_class r' = true) by (unfold var_class; rewrite (dreg_slot _ _ Hdr), Es; reflexivity);
         destruct R1 as (_ & Hv1 & _); destruct R2 as (_ & Hv2 & _);
         rewrite (Hv1 _ _ Hy Hvc), (Hv2 _ _ Hy Hvc); apply He; exact Hd).
-      apply Hf. lia.
+      apply Hf. destruct Hr as [Hr _]. lia.
     - destruct R1 as (_ & _ & _ & P1). destruct R2 as (_ & _ & _ & P2).
       destruct lft as [i t vol|n|b|i t|i t|i t|i t vol|i t|]; try discriminate Es; try reflexivity.
       rewrite !read_reg_prim. congruence.
@@ -369,7 +395,7 @@ Section Sim.
       | Fault zc s' => exists c', run_is k z c is = inl (zc, c') /\ R s' c'
       end.
   Proof.
-    induction e as [p|cm| |x o c v Co IHc IHv|x v Pl IHv|o l r0 G IHl IHr] using expr_shape_ind;
+    induction e as [p|cm| |x o c v Co IHc IHv|x v Pl IHv|u1 u2 v IHt IHv|o l r0 G IHl IHr] using expr_shape_ind;
       intros g t g' sc is r sc' Ht Hcl Hc L T X N8 W.
     - (* atoms *)
       destruct p as [b|x|n].
@@ -532,6 +558,47 @@ Section Sim.
       split; [eapply R_write; eauto|]. split.
       + eapply tmp_frame_trans; [apply N.le_refl| |eapply tmp_frame_write_var; eauto]. rewrite <- N01. exact F2.
       + rewrite (read_reg_slot _ _ _ _ _ _ Hsx). apply rd_write_same; [exact (proj1 HR2)|exact Hsx|exact (within_writable _ _ _ Wx Hsx)].
+    - (* a bind whose target is itself a bind: the inner bind runs first, then the value, then the store *)
+      pose proof Ht as Ht0. apply ty_nest_inv in Ht. destruct Ht as (Pl & g1 & H1 & H2).
+      rewrite clobbers_nest in Hcl.
+      apply orb_false_iff in Hcl. destruct Hcl as [Hcl Hclv]. apply orb_false_iff in Hcl. destruct Hcl as [Hdv Hclt].
+      apply compile_sexp_inv in Hc. destruct Hc as (is1 & lft & sc1 & is2 & rgt & sc2 & C1 & C2 & C3).
+      destruct (compile_expr_mono _ _ _ _ _ C1) as [E01 N01]. destruct (compile_expr_mono _ _ _ _ _ C2) as [E12 N12].
+      destruct (typing_link _ _ _ _ _ _ _ _ H1 C1 L T) as (L1 & T1 & Tl & _).
+      apply lower_tail_bind in C3. destruct C3 as (lft' & Hup & -> & Hshape).
+      destruct Hup as [(s0 & Hs0 & _)|(_ & -> & ->)]; [exfalso; exact (Tl s0 Hs0)|].
+      assert (Hrg : rgt <> RNone).
+      { eapply plain_result; eauto. apply scf_no_rnone. exact (sext_trans _ _ _ E12 X). }
+      destruct Hshape as [(-> & _)|(-> & Hsl)]; [congruence|].
+      apply Forall_app_inv in W. destruct W as [W Wl]. apply Forall_app_inv in W. destruct W as [W1 W2].
+      inversion Wl as [|? ? (Wx & _ & Wr) _]; subst. cbn [i_res i_right] in Wx, Wr.
+      destruct (IHt _ _ _ _ _ _ _ H1 Hclt C1 L T (sext_trans _ _ _ E12 X) N8 W1) as (Rt & N8a & St).
+      destruct (IHv _ _ _ _ _ _ _ H2 Hclv C2 L1 T1 X N8a W2) as (Rv & N8b & Sv).
+      destruct (slot lft) as [[fx ix]|] eqn:Hsx; [|contradiction].
+      destruct (typed_bind_target _ _ _ _ H1 _ _ eq_refl) as (x & Hbt & Hdv').
+      assert (Hx' : fx <> FTmp /\ exists r', sc_get scf x = Some r' /\ dreg_of r' = dreg_of lft).
+      { unfold res_ok in Rt. rewrite Hsx in Rt.
+        destruct fx; try (destruct Rt as (x0 & r' & Hd0 & Gf & Hd); rewrite Hdv' in Hd0; inversion Hd0; subst x0; split; [discriminate|eauto]).
+        destruct Rt as [_ Hnone]. rewrite Hbt in Hnone. discriminate Hnone. }
+      destruct Hx' as (Hfx & r' & Gf & Hd).
+      assert (Hvc : var_class r' = true).
+      { rewrite (var_class_dreg _ _ Hd). unfold var_class. rewrite Hsx. destruct fx; try reflexivity. congruence. }
+      split.
+      { unfold res_ok. rewrite Hsx. destruct fx; try congruence; exists x, r'; (split; [exact Hdv'|auto]). }
+      split; [lia|].
+      intros s c HR. rewrite eval_nest. specialize (St s c HR).
+      destruct (eval cx s (Sexp OBind u1 u2)) as [s1 a|zc s1] eqn:Et.
+      2:{ destruct St as (c1 & Hrun & HR1). exists c1. split; [|exact HR1]. rewrite run_is_snoc, run_is_app, Hrun. reflexivity. }
+      destruct St as (c1 & Hrun1 & HR1 & F1 & V1). specialize (Sv s1 c1 HR1).
+      destruct (eval cx s1 v) as [s2 vv|zc s2] eqn:Ev.
+      2:{ destruct Sv as (c2 & Hrun2 & HR2). exists c2. split; [|exact HR2]. rewrite run_is_snoc, run_is_app, Hrun1, Hrun2. reflexivity. }
+      destruct Sv as (c2 & Hrun2 & HR2 & F2 & V2).
+      rewrite Hbt.
+      eexists. split; [rewrite run_is_snoc, run_is_app, Hrun1, Hrun2, exec_bind; reflexivity|]. rewrite V2.
+      split; [eapply R_write; eauto|]. split.
+      + eapply tmp_frame_trans; [apply N.le_refl| |eapply tmp_frame_write_var; eauto].
+        eapply tmp_frame_trans; [exact N01|exact F1|exact F2].
+      + rewrite (read_reg_slot _ _ _ _ _ _ Hsx). apply rd_write_same; [exact (proj1 HR2)|exact Hsx|exact (within_writable _ _ _ Wx Hsx)].
     - (* arithmetic, comparison and logical operators *)
       apply ty_op_inv in Ht; auto. destruct Ht as (Vo & tl & g1 & tr & H1 & H2).
       rewrite clobbers_op in Hcl by exact G.
@@ -547,7 +614,7 @@ Section Sim.
       destruct (IHr _ _ _ _ _ _ _ H2 Hclr C2 L1 T1 X2 N8a W2) as (Rr & N8b & Sr).
       assert (Hj : sc_ntmp sc2 mod 256 = sc_ntmp sc2) by (apply N.mod_small; lia).
       rewrite Hj in *.
-      split; [unfold res_ok; cbn [slot]; lia|]. split; [lia|].
+      split; [unfold res_ok; cbn [slot]; split; [lia|destruct o; try reflexivity; discriminate Vo]|]. split; [lia|].
       intros s c HR. rewrite eval_op by exact G. specialize (Sl s c HR).
       destruct (eval cx s l) as [s1 a|zc s1] eqn:El.
       2:{ destruct Sl as (c1 & Hrun & HR1). exists c1. split; [|exact HR1]. rewrite run_is_snoc, run_is_app, Hrun. reflexivity. }
